@@ -48,10 +48,15 @@ type reqD struct {
 	ContOK   bool     `json:"contok,omitempty"` // ContinueHandler answer
 	Rd       string   `json:"rd"`               // none | upto | eof
 	K        int      `json:"k,omitempty"`
-	Fin      string   `json:"fin"`              // none | detach | timeout | hijack | connclose
-	Detach   int      `json:"detach,omitempty"` // 0 CloseBodyStream 1 ResetBody 2 SetBodyString
-	AltAt    int      `json:"altat,omitempty"`  // chunked: raw body offset where CRLF + last-chunk + a smuggle unit are embedded in the chunk data
-	AltSid   int      `json:"altsid,omitempty"` // number of that unit
+	Fin      string   `json:"fin"`               // none | detach | timeout | hijack | connclose
+	Detach   int      `json:"detach,omitempty"`  // 0 CloseBodyStream 1 ResetBody 2 SetBodyString
+	MaxOv    int      `json:"maxov,omitempty"`   // RequestConfig.MaxRequestBodySize from HeaderReceived for this request
+	BadURI   bool     `json:"baduri,omitempty"`  // the request target does not parse (Request.parseURI fails before the body is read)
+	HTTP10   int      `json:"http10,omitempty"`  // 1: HTTP/1.0, 2: HTTP/1.0 with Connection: keep-alive
+	MpEnc    bool     `json:"mpenc,omitempty"`   // multipart body with a Content-Encoding header: not pre-parsed
+	Trailer  bool     `json:"trailer,omitempty"` // chunked body with a declared trailer field
+	AltAt    int      `json:"altat,omitempty"`   // chunked: raw body offset where CRLF + last-chunk + a smuggle unit are embedded in the chunk data
+	AltSid   int      `json:"altsid,omitempty"`  // number of that unit
 }
 
 type desc struct {
@@ -99,13 +104,37 @@ func multipartBody(r reqD) []byte {
 	return sb.Bytes()
 }
 
+func trailerOf(r reqD) string {
+	if r.Trailer {
+		return "X-T: v\r\n\r\n"
+	}
+	return "\r\n"
+}
+
 type wireReq struct {
 	head, body []byte
 }
 
 func buildReq(r reqD) wireReq {
 	var h bytes.Buffer
-	fmt.Fprintf(&h, "%s /r%d HTTP/1.1\r\nHost: x\r\n", r.Method, r.ID)
+	target := fmt.Sprintf("/r%d", r.ID)
+	if r.BadURI {
+		target = fmt.Sprintf("http://[zz]/r%d", r.ID) // not an IPv6 literal: URI parsing fails
+	}
+	proto := "HTTP/1.1"
+	if r.HTTP10 > 0 {
+		proto = "HTTP/1.0"
+	}
+	fmt.Fprintf(&h, "%s %s %s\r\nHost: x\r\n", r.Method, target, proto)
+	if r.HTTP10 == 2 {
+		h.WriteString("Connection: keep-alive\r\n")
+	}
+	if r.MaxOv > 0 {
+		fmt.Fprintf(&h, "X-Max: %d\r\n", r.MaxOv)
+	}
+	if r.Trailer && r.Fr == "chunked" {
+		h.WriteString("Trailer: X-T\r\n")
+	}
 	if r.Close {
 		h.WriteString("Connection: close\r\n")
 	}
@@ -128,6 +157,9 @@ func buildReq(r reqD) wireReq {
 	case "multipart":
 		body = multipartBody(r)
 		fmt.Fprintf(&h, "Content-Type: multipart/form-data; boundary=%s\r\nContent-Length: %d\r\n", boundary, len(body))
+		if r.MpEnc {
+			h.WriteString("Content-Encoding: identity\r\n")
+		}
 	case "chunked":
 		h.WriteString("Transfer-Encoding: chunked\r\n")
 		tot := 0
@@ -147,7 +179,7 @@ func buildReq(r reqD) wireReq {
 				b.WriteString("\r\n")
 			}
 		}
-		b.WriteString(r.ZeroLine + "\r\n\r\n")
+		b.WriteString(r.ZeroLine + "\r\n" + trailerOf(r))
 		body = b.Bytes()
 		if r.AltAt > 0 {
 			// what a reader sees that takes the first AltAt raw bytes for chunk data: end of chunk, last-chunk, a request
@@ -171,7 +203,7 @@ func (r reqD) truncated() bool {
 	if r.Cut == 0 {
 		return false
 	}
-	full := buildReq(reqD{ID: r.ID, Method: r.Method, Fr: r.Fr, N: r.N, Chunks: r.Chunks, ZeroLine: r.ZeroLine, MpBad: r.MpBad})
+	full := buildReq(reqD{ID: r.ID, Method: r.Method, Fr: r.Fr, N: r.N, Chunks: r.Chunks, ZeroLine: r.ZeroLine, MpBad: r.MpBad, Trailer: r.Trailer})
 	return r.Cut-1 < len(full.body)
 }
 
@@ -261,6 +293,10 @@ func serveConn(d desc, reqs []reqD) []string {
 		Logger:                       nullLogger{},
 		NoDefaultServerHeader:        true,
 	}
+	s.HeaderReceived = func(h *fasthttp.RequestHeader) fasthttp.RequestConfig {
+		v, _ := strconv.Atoi(string(h.Peek("X-Max")))
+		return fasthttp.RequestConfig{MaxRequestBodySize: v}
+	}
 	if d.ExpectH {
 		s.ExpectHandler = func(ctx *fasthttp.RequestCtx) int {
 			v, _ := strconv.Atoi(string(ctx.Request.Header.Peek("X-Exp")))
@@ -318,6 +354,12 @@ func serveConn(d desc, reqs []reqD) []string {
 				ctx.Request.ResetBody()
 			case 2:
 				ctx.Request.SetBodyString("replaced")
+			case 3:
+				ctx.Request.Body() // reads what is left of the stream, then closeBodyStream
+			case 4:
+				ctx.Request.BodyWriteTo(io.Discard) //nolint:errcheck
+			case 5:
+				ctx.Request.SetBodyStream(bytes.NewReader(nil), 0)
 			default:
 				ctx.Request.CloseBodyStream() //nolint:errcheck
 			}
@@ -367,6 +409,12 @@ func serveConn(d desc, reqs []reqD) []string {
 		if j := strings.Index(lower, "\r\ncontent-length: "); j >= 0 {
 			rest := lower[j+18:]
 			cl, _ = strconv.Atoi(rest[:strings.Index(rest, "\r\n")])
+		}
+		if j := strings.Index(lower, "\r\nx-id: "); j >= 0 {
+			rest := lower[j+8:]
+			if id, err := strconv.Atoi(rest[:strings.Index(rest, "\r\n")]); err == nil && progs[id].Method == "HEAD" {
+				cl = 0 // the response to HEAD announces a length and carries nothing
+			}
 		}
 		if cl > len(out) {
 			cl = len(out)
@@ -426,8 +474,9 @@ func optZ(present bool, v int) string {
 }
 
 func reqCoq(d desc, r reqD) string {
-	w := buildReq(reqD{ID: r.ID, Method: r.Method, Close: r.Close, Expect: r.Expect, Pad: r.Pad, Fr: r.Fr, N: r.N, Chunks: r.Chunks,
-		ZeroLine: r.ZeroLine, MpBad: r.MpBad, ExpSt: r.ExpSt, ContOK: r.ContOK})
+	rr := r
+	rr.Cut = 0
+	w := buildReq(rr)
 	fr := "FNone"
 	mp := "None"
 	switch r.Fr {
@@ -443,12 +492,15 @@ func reqCoq(d desc, r reqD) string {
 			f.RemoveAll() //nolint:errcheck
 		}
 		mp = hlib.Some(hlib.Bool(ok))
+		if r.MpEnc {
+			mp = "None" // Content-Encoding present: an ordinary body
+		}
 	case "chunked":
 		var cs []string
 		for _, c := range r.Chunks {
 			cs = append(cs, hlib.App("mkChunk", hlib.Z(int64(len(c.Line)+2)), hlib.Z(int64(c.Size)), hlib.Bool(!c.Bad)))
 		}
-		fr = hlib.App("FChunked", hlib.List(cs), hlib.Z(int64(len(r.ZeroLine)+2)), hlib.Z(2))
+		fr = hlib.App("FChunked", hlib.List(cs), hlib.Z(int64(len(r.ZeroLine)+2)), hlib.Z(int64(len(trailerOf(r)))))
 	}
 	rd := "RNone"
 	switch r.Rd {
@@ -463,8 +515,9 @@ func reqCoq(d desc, r reqD) string {
 	}
 	fin := map[string]string{"none": "FinNone", "detach": "FinDetach", "timeout": "FinTimeout", "hijack": "FinHijack", "connclose": "FinConnClose"}[r.Fin]
 	getlike := r.Method == "GET" || r.Method == "HEAD"
-	return hlib.App("mkReq", hlib.Z(int64(r.ID)), hlib.Z(int64(len(w.head))), hlib.Bool(getlike), hlib.Bool(r.Close), hlib.Bool(r.Expect),
-		fr, mp, optZ(r.truncated(), r.Cut-1), hlib.Z(int64(r.ExpSt)), hlib.Bool(r.ContOK), rd, fin, "O", alt)
+	closeHdr := r.Close || r.HTTP10 == 1
+	return hlib.App("mkReq", hlib.Z(int64(r.ID)), hlib.Z(int64(len(w.head))), hlib.Bool(getlike), hlib.Bool(closeHdr), hlib.Bool(r.Expect),
+		fr, mp, optZ(r.truncated(), r.Cut-1), hlib.Z(int64(r.ExpSt)), hlib.Bool(r.ContOK), rd, fin, hlib.Z(int64(r.MaxOv)), hlib.Bool(!r.BadURI), "O", alt)
 }
 
 func cfgCoq(d desc) string {
@@ -554,19 +607,29 @@ func sizes(max int) []int {
 }
 
 func genReq(r *rand.Rand, d desc, id int, last bool) reqD {
-	q := reqD{ID: id, Method: hlib.Pick(r, []string{"POST", "POST", "PUT", "GET"}), Rd: "none", Fin: "none", ZeroLine: "0"}
+	q := reqD{ID: id, Method: hlib.Pick(r, []string{"POST", "POST", "PUT", "GET", "HEAD"}), Rd: "none", Fin: "none", ZeroLine: "0"}
+	if r.Intn(10) == 0 {
+		q.MaxOv = hlib.Pick(r, []int{1, 64, 1000, 8192, 8193, 30000})
+	}
+	if r.Intn(40) == 0 {
+		q.BadURI = true
+	}
 	if r.Intn(4) == 0 {
 		q.Pad = r.Intn(200)
 	}
 	if r.Intn(12) == 0 {
 		q.Close = true
 	}
-	n := hlib.Pick(r, sizes(d.Max))
+	em := d.Max
+	if q.MaxOv > 0 {
+		em = q.MaxOv
+	}
+	n := hlib.Pick(r, sizes(em))
 	if n < 0 {
 		n = 0
 	}
 	if r.Intn(3) == 0 {
-		n = r.Intn(2*d.Max + 3)
+		n = r.Intn(2*em + 3)
 	}
 	if n > 70000 {
 		n = 70000
@@ -587,10 +650,15 @@ func genReq(r *rand.Rand, d desc, id int, last bool) reqD {
 			q.Chunks[r.Intn(len(q.Chunks))].Bad = true
 		}
 		q.ZeroLine = hlib.Pick(r, []string{"0", "0", "000", "0;last"})
+		q.Trailer = r.Intn(6) == 0
 	default:
 		q.Fr = "multipart"
 		q.N = hlib.Pick(r, []int{0, 0, 1, 32, 64, 100, 1000})
 		q.MpBad = r.Intn(4) == 0
+		q.MpEnc = r.Intn(5) == 0
+	}
+	if q.Fr != "chunked" && r.Intn(15) == 0 {
+		q.HTTP10 = 1 + r.Intn(2)
 	}
 	if r.Intn(4) == 0 {
 		q.Expect = true
@@ -610,6 +678,11 @@ func genReq(r *rand.Rand, d desc, id int, last bool) reqD {
 			}
 		}
 	}
+	if q.Trailer && q.truncated() {
+		// a streamed body cut off inside a trailer section WITH fields is reported as complete and the leftover trailer
+		// bytes go to the request parser (candidate finding reported to the coordinator): not generated
+		q.Trailer = false
+	}
 	dl := dataLen(q)
 	switch r.Intn(6) {
 	case 0:
@@ -618,7 +691,7 @@ func genReq(r *rand.Rand, d desc, id int, last bool) reqD {
 		q.Rd = "eof"
 	default:
 		q.Rd = "upto"
-		q.K = hlib.Pick(r, []int{0, 1, 32, dl / 2, dl - 1, dl, dl + 1, 8191, 8192, 8193, 8192 + 32, d.Max, d.Max + 1})
+		q.K = hlib.Pick(r, []int{0, 1, 32, dl / 2, dl - 1, dl, dl + 1, 8191, 8192, 8193, 8192 + 32, em, em + 1})
 		if q.K < 0 {
 			q.K = 0
 		}
@@ -632,7 +705,10 @@ func genReq(r *rand.Rand, d desc, id int, last bool) reqD {
 	switch r.Intn(12) {
 	case 0, 1:
 		q.Fin = "detach"
-		q.Detach = r.Intn(3)
+		q.Detach = r.Intn(6)
+		if q.Detach >= 3 {
+			q.Rd = "eof" // Body() / BodyWriteTo read the stream themselves: preceded by a read to EOF so that the count is observable
+		}
 	case 2, 3:
 		q.Fin = "timeout"
 	case 4:
@@ -809,6 +885,30 @@ func corpus() []desc {
 			one(base, reqD{Method: "POST", Fr: "chunked", Chunks: []chunkD{{Size: 64, Line: "40"}, {Size: 64, Line: "40"}}, Rd: "eof", Fin: "detach"})
 			one(base, reqD{Method: "POST", Fr: "chunked", Chunks: []chunkD{{Size: 64, Line: "40"}, {Size: 64, Line: "40"}}, Rd: "upto", K: 128, Fin: "detach", Detach: 1})
 			one(base, reqD{Method: "POST", Fr: "fixed", N: 10000, Rd: "eof", Fin: "timeout"})
+			// per-request body size limit from HeaderReceived: reading and draining follow it
+			for _, ov := range []int{64, 30000} {
+				for _, n := range []int{ov - 1, ov, ov + 1, 2*ov + 1, 2*ov + 2} {
+					one(base, reqD{Method: "POST", Fr: "fixed", N: n, MaxOv: ov, Rd: "none", Fin: "none"})
+					one(base, reqD{Method: "POST", Fr: "chunked", Chunks: []chunkD{{Size: n, Line: strconv.FormatInt(int64(n), 16)}}, MaxOv: ov, Rd: "upto", K: 10, Fin: "none"})
+				}
+			}
+			// a target that does not parse: answered before the body is read, the connection ends
+			one(base, reqD{Method: "POST", Fr: "fixed", N: 64, BadURI: true, Rd: "none", Fin: "none"})
+			one(base, reqD{Method: "POST", Fr: "chunked", Chunks: []chunkD{{Size: 64, Line: "40"}}, BadURI: true, Expect: true, ExpSt: 100, ContOK: true, Rd: "none", Fin: "none"})
+			// HTTP/1.0 with and without keep-alive, HEAD with a body, multipart that is not pre-parsed, trailer fields
+			one(base, reqD{Method: "POST", Fr: "fixed", N: 10000, HTTP10: 1, Rd: "none", Fin: "none"})
+			one(base, reqD{Method: "POST", Fr: "fixed", N: 10000, HTTP10: 2, Rd: "none", Fin: "none"})
+			one(base, reqD{Method: "HEAD", Fr: "fixed", N: 10000, Rd: "none", Fin: "none"})
+			one(base, reqD{Method: "POST", Fr: "multipart", N: 64, MpEnc: true, Rd: "none", Fin: "none"})
+			one(base, reqD{Method: "POST", Fr: "multipart", N: 64, MpEnc: true, MpBad: true, Rd: "upto", K: 5, Fin: "detach"})
+			one(base, reqD{Method: "POST", Fr: "chunked", Chunks: []chunkD{{Size: 64, Line: "40"}, {Size: 9000, Line: "2328"}}, Trailer: true, Rd: "none", Fin: "none"})
+			one(base, reqD{Method: "POST", Fr: "chunked", Chunks: []chunkD{{Size: 64, Line: "40"}}, Trailer: true, Rd: "eof", Fin: "none"})
+			// Body() / BodyWriteTo / SetBodyStream on a streamed request
+			for dv := 3; dv <= 5; dv++ {
+				one(base, reqD{Method: "POST", Fr: "fixed", N: 10000, Rd: "eof", Fin: "detach", Detach: dv})
+				one(base, reqD{Method: "POST", Fr: "chunked", Chunks: []chunkD{{Size: 5, Line: "5", Bad: true}, {Size: 64, Line: "40"}}, Rd: "eof", Fin: "detach", Detach: dv})
+			}
+			one(base, reqD{Method: "POST", Fr: "fixed", N: 10000, Rd: "upto", K: 100, Fin: "detach", Detach: 5})
 			// hijack / connection close
 			one(base, reqD{Method: "POST", Fr: "fixed", N: 10000, Rd: "none", Fin: "hijack"})
 			one(base, reqD{Method: "POST", Fr: "fixed", N: 10000, Rd: "none", Fin: "connclose"})
